@@ -151,13 +151,18 @@ def finish(c: Campaign, replay_writer=None) -> int:
     known = load_known()
     known_hits: dict[str, int] = {}
     unknown: list[tuple[str, dict[str, Any]]] = []
+    known_buckets: dict[str, list[str]] = {}
+    known_what: dict[str, str] = {}
     for bucket, b in sorted(c.buckets.items()):
         k = match_known(c.prop, bucket, known)
         if k is not None:
             known_hits[k["id"]] = known_hits.get(k["id"], 0) + b["count"]
-            print(f"KNOWN-FINDING: property={c.prop} {k['id']}: {k['what']} (bucket {bucket}, {b['count']} case(s) excluded)")
+            known_buckets.setdefault(k["id"], []).append(bucket)
+            known_what[k["id"]] = k["what"]
         else:
             unknown.append((bucket, b))
+    for fid, n in known_hits.items():
+        print(f"KNOWN-FINDING: property={c.prop} {fid}: {known_what[fid]} ({n} case(s) excluded; buckets: {', '.join(known_buckets[fid])})")
 
     rc = 0
     out_home = os.path.join(HOME, "scratch") if os.environ.get("VERIF_NO_EVIDENCE") else HOME
